@@ -11,6 +11,7 @@ import numpy as np
 
 from .. import boot  # noqa: F401
 from .. import cfg as C
+from .. import work
 from ..gen import SpecProblem, make_spec, rng_for
 from ..ref import RefTransform, Weights
 
@@ -155,6 +156,8 @@ def run_case(case):
         R = RefTransform(prob2, w)
         tp = T.trans_problem
         bump("scaling_" + sc)
+        if weights:
+            bump("custom_weights_stored_as_%s" % weights.get("dtype", "int64"))
         bump("fmt_%s%s" % (fmt, "+dup%d" % dup if dup else ""))
         fpe = False
         # ---- structure and bounds
@@ -245,7 +248,14 @@ def run_case(case):
             if _range_bad(zi[zi != 0]) or _range_bad(yi[yi != 0]):
                 fpe = True
             else:
-                it = T.create_transformed_iterate(x0, y0)
+                try:
+                    it = T.create_transformed_iterate(x0, y0)
+                except Exception as ex:
+                    if not work.raised_in_repo(ex):
+                        raise
+                    bad("transform_sol", "mapping the start point raised %s: %s (%s)"
+                        % (type(ex).__name__, str(ex)[:80], work.repo_frame(ex)), {"exc": type(ex).__name__})
+                    continue
                 bump("compared_initial_iterate")
                 if not (_same(it.x, zi) and _same(it.y, yi)):
                     bad("transform_sol", "internal start point differs from reference "
@@ -296,7 +306,8 @@ def finalize(agg, tier):
         "floors": {"compared_cons": 500, "compared_cons_jac": 500, "compared_lag_hess": 1000,
                    "compared_initial_iterate": 500, "compared_restore": 500, "scaling_custom": 100,
                    "scaling_GradJac": 50, "scaling_KKT": 50, "scaling_Nominal": 50, "points_with_pattern_switch": 300, "policy_const": 200, "policy_memo": 200,
-                   "jacobian_dtype_bool": 40, "jacobian_dtype_float32": 40, "jacobian_dtype_int64": 40, "float32_vectors": 30, "int64_vectors": 30, "specs_with_free_rows": 40, "scaling_objects_adjusted_after_use": 150},
+                   "jacobian_dtype_bool": 40, "jacobian_dtype_float32": 40, "jacobian_dtype_int64": 40, "float32_vectors": 30, "int64_vectors": 30, "specs_with_free_rows": 40, "scaling_objects_adjusted_after_use": 150, "custom_weights_stored_as_int8": 60,
+                   "custom_weights_stored_as_int16": 60},
         "assumptions": ["bit-level oracle: ldexp by integer weights is exact absent over/underflow; cases where the "
                         "scaling over- or underflows are set aside per the statement ('absent overflow')"],
     }
